@@ -15,7 +15,7 @@ Inductive tkind :=
 | MINUS | MINUS_EQUALS | MINUS_MINUS | MOD | NOT_EQ | NIL | NOT | PIPE | OR | PERIOD | PLUS
 | AMPERSAND | PLUS_EQUALS | PLUS_PLUS | POW | QUESTION | RBRACE | RBRACKET | RETURN | RPAREN
 | SEMICOLON | SEND | SLASH | SLASH_EQUALS | STRING | STRUCT | SWITCH | TRUE | NEWLINE | IMPORT
-| BREAK | CONTINUE | VAR | IN | RANGE | FROM | AS | EMPTY (* token.Token{} *).
+| BREAK | CONTINUE | VAR | IN | RANGE | FROM | AS | ILLEGAL | EMPTY (* token.Token{} *).
 
 Record position := { p_value : N; p_char : nat; p_linestart : nat; p_line : nat; p_col : nat }.
 
@@ -305,6 +305,8 @@ Definition keyword (ident : list N) : tkind :=
   else IDENT.
 
 (* ---------- Next ---------- *)
+(* an error carries a token: the string read so far for a string literal, otherwise an ILLEGAL token that starts where
+   the text that is not a token starts and ends where the lexer stood when it gave up *)
 
 Inductive lexres := LTok (t : token) (s : lst) | LErr (t : token) (e : lexerr) (s : lst).
 
@@ -348,7 +350,7 @@ Fixpoint next (fuel : nat) (s0 : lst) : lexres :=
         else if c =? 60 then (if p =? 60 then two LT_LT else if p =? 61 then two LT_EQUALS
                               else if p =? 45 then two SEND else one LT)
         else if c =? 62 then (if p =? 62 then two GT_GT else if p =? 61 then two GT_EQUALS else one GT)
-        else if c =? 126 then LErr empty_token (EUnexpectedChar c) s
+        else if c =? 126 then LErr (mk_token ILLEGAL [] start s) (EUnexpectedChar c) s
         else if c =? 33 then (if p =? 61 then two NOT_EQ else one BANG)
         else if (c =? 39) || (c =? 34) then
           let k := if c =? 39 then FSTRING else STRING in
@@ -375,17 +377,17 @@ Fixpoint next (fuel : nat) (s0 : lst) : lexres :=
         else if is_digit c then
           match read_decimal start s with
           | (s1, t, None) => finish t s1
-          | (s1, t, Some e) => LErr empty_token e s1
+          | (s1, t, Some e) => LErr (mk_token ILLEGAL [] start s1) e s1
           end
         else
           match is_identifier c with
           | None => LErr empty_token EUnsupported s
-          | Some false => LErr empty_token EInvalidIdentifier s
+          | Some false => LErr (mk_token ILLEGAL [] start s) EInvalidIdentifier s
           | Some true =>
               match read_ident_rest (sz s) s [c] with
-              | (s1, _, Some e) => LErr empty_token e s1
+              | (s1, _, Some e) => LErr (mk_token ILLEGAL [] start s1) e s1
               | (s1, ident, None) =>
-                  if negb (is_ascii (peek s1)) then LErr empty_token EInvalidIdentifier s1
+                  if negb (is_ascii (peek s1)) then LErr (mk_token ILLEGAL [] start s1) EInvalidIdentifier s1
                   else
                     let k := if (list_eq_dec N.eq_dec ident [97;115]) then
                                (if prev_period s1 then IDENT else AS)
